@@ -1,31 +1,38 @@
 #include <stdio.h>
-#include <stdlib.h>
 #include "slu_mt_ddefs.h"
 /* inputs: etree, the relaxed-supernode array (n+2 entries), the two options ParallelInit reads; Gstat's panel-width histogram has
  * max(panel_size, relax)+1 entries (StatAlloc): it is the END of in_histo, so that an index beyond it is out of bounds */
 int_t in_n, in_etree[CAP]; pxgstrf_relax_t in_relax[CAP + 2]; superlumt_options_t in_opt; pxgstrf_shared_t in_sh; Gstat_t in_gstat; int_t in_histo[HC];
 /* ghost: allocator / mutex call counters, return value */
 int g_n_smalloc, g_n_imalloc, g_n_icalloc, g_n_mutex_init, g_bad_request; int g_ret;
-/* ---- allocation model (trusted): NON-FAILING; every request is served from a new heap object of CONSTANT size (symbolic-size
- * objects exhaust the solver), END-aligned, so that an access beyond the requested size is out of bounds.  intCalloc zero-fills. */
-#define BLKB ((CAP + 1) * sizeof(pan_status_t) > NO_GLU_LOCKS * sizeof(mutex_t) ? (CAP + 1) * sizeof(pan_status_t) : NO_GLU_LOCKS * sizeof(mutex_t))
+/* ---- allocation model (trusted): NON-FAILING.  Each of the five requests is served by its own typed block of CONSTANT capacity owned by
+ * the harness (symbolic-size heap objects exhaust the solver), END-aligned so that an access beyond the requested size is out of bounds.
+ * Block contents start arbitrary (like malloc); intCalloc zero-fills.  superlu_malloc recognises the request by its order and size:
+ * 1st NO_GLU_LOCKS mutexes (lu_locks), 2nd n+1 pan_status_t (pan_status), 3rd n queue items (taskq.queue). */
+mutex_t g_blk_locks[NO_GLU_LOCKS]; pan_status_t g_blk_pan[CAP + 1]; qitem_t g_blk_queue[CAP]; int_t g_blk_spin[CAP]; int_t g_blk_fb[CAP + 1];
+#define REP(M_) M_(0) M_(1) M_(2) M_(3) M_(4) M_(5) M_(6) M_(7) M_(8) M_(9) M_(10) M_(11) M_(12) M_(13) M_(14)
+#if CAP > 14
+#error "extend REP"
+#endif
+static void *bad_request(void) { g_bad_request = 1; __CPROVER_assert(0, "allocator model: unexpected request"); __CPROVER_assume(0); return (void *)0; }
 void *superlu_malloc(size_t size) {
-  if (size > BLKB) { g_bad_request = 1; __CPROVER_assert(0, "allocator model: request fits the constant block"); __CPROVER_assume(0); }
-  char *p = malloc(BLKB); __CPROVER_assume(p != NULL);
-  g_n_smalloc++;
-  return p + (BLKB - size);
+  int k = g_n_smalloc++;
+  if (k == 0 && size == NO_GLU_LOCKS * sizeof(mutex_t)) return g_blk_locks;
+  if (k == 1 && size % sizeof(pan_status_t) == 0 && size / sizeof(pan_status_t) <= CAP + 1) return g_blk_pan + (CAP + 1 - size / sizeof(pan_status_t));
+  if (k == 2 && size % sizeof(qitem_t) == 0 && size / sizeof(qitem_t) <= CAP) return g_blk_queue + (CAP - size / sizeof(qitem_t));
+  return bad_request();
 }
 int_t *intMalloc(int_t n) {
-  if (n < 0 || n > CAP + 1) { g_bad_request = 1; __CPROVER_assert(0, "allocator model: at most CAP+1 integers"); __CPROVER_assume(0); }
-  int_t *p = malloc((CAP + 1) * sizeof(int_t)); __CPROVER_assume(p != NULL);
+  if (g_n_imalloc != 0 || n < 0 || n > CAP + 1) return bad_request();
   g_n_imalloc++;
-  return p + (CAP + 1 - n);
+  return g_blk_fb + (CAP + 1 - n);
 }
 int_t *intCalloc(int_t n) {
-  if (n < 0 || n > CAP + 1) { g_bad_request = 1; __CPROVER_assert(0, "allocator model: at most CAP+1 integers"); __CPROVER_assume(0); }
-  int_t *p = calloc(CAP + 1, sizeof(int_t)); __CPROVER_assume(p != NULL);
+  if (g_n_icalloc != 0 || n < 0 || n > CAP) return bad_request();
   g_n_icalloc++;
-  return p + (CAP + 1 - n);
+#define ZERO(k) if (k < CAP && k >= CAP - n) g_blk_spin[k < CAP ? k : 0] = 0;
+  REP(ZERO)
+  return g_blk_spin + (CAP - n);
 }
 /* trusted: pthread_mutex_init succeeds; the lock object itself is not modelled */
 int pthread_mutex_init(pthread_mutex_t *m, const pthread_mutexattr_t *a) { g_n_mutex_init++; return 0; }
@@ -36,11 +43,13 @@ void h_parinit(void) {
   in_gstat.panel_histo = (0 <= hw && hw < HC) ? in_histo + (HC - 1 - hw) : in_histo;
   g_ret = ParallelInit(in_n, in_relax, &in_opt, &in_sh);
   __CPROVER_assert(0, "canary: ParallelInit returns");
+#if !TREE
   if (in_n == CAP && in_relax[0].size == 1 && in_relax[1].size == CAP) __CPROVER_assert(0, "canary: whole matrix is one relaxed supernode");
-  if (in_n == CAP && in_relax[0].size == CAP) __CPROVER_assert(0, "canary: only relaxed supernodes (all singletons)");
   if (in_n == CAP && in_relax[0].size == 2 && in_sh.tasks_remain >= 4) __CPROVER_assert(0, "canary: two relaxed supernodes and at least two regular panels");
   if (in_sh.num_splits >= 1) __CPROVER_assert(0, "canary: a panel is split (SPLIT_TOP)");
+#else
   if (in_n >= 4 && in_sh.pan_status[2].size == 2 && in_sh.pan_status[2].type == REGULAR_PANEL) __CPROVER_assert(0, "canary: regular panel of width 2");
-  if (in_n >= 4 && in_opt.panel_size >= 4 && in_sh.pan_status[2].size == 1 && in_sh.pan_status[3].size > 0 && in_sh.pan_status[3].type == REGULAR_PANEL && in_sh.pan_status[2].type == REGULAR_PANEL) __CPROVER_assert(0, "canary: regular panel cut at an etree branch point");
+  if (in_n >= 5 && in_opt.panel_size >= 4 && in_sh.pan_status[2].size == 1 && in_sh.pan_status[2].type == REGULAR_PANEL && in_sh.pan_status[3].size > 0 && in_sh.pan_status[3].type == REGULAR_PANEL && in_sh.pan_status[3].ukids >= 2) __CPROVER_assert(0, "canary: regular panel cut at an etree branch point");
   if (in_sh.pan_status[in_n].ukids >= 2) __CPROVER_assert(0, "canary: forest with several roots");
+#endif
 }
